@@ -44,6 +44,7 @@ def correspondence(o, n, shards, seed):
         compared += c
         ndiff += len(diffs)
         first += [x for x in diffs if x][:3]
+        judge_diffs(o, d, [x for x in diffs if x])
     mon = codec.read_monitor(dirs)
     # shortest failing input first: it is the replay
     def blen(line):
@@ -72,6 +73,44 @@ def correspondence(o, n, shards, seed):
         "monitor_failures": len(mon),
         "disagreements": ndiff,
     })
+
+
+def judge_diffs(o, d, diffs):
+    """A disagreement between the real walker and the model's is turned into a concrete violation when
+    the property statement fails on the IMPLEMENTATION's own answers, with the proved model as the
+    arbiter of the one thing the real code cannot tell apart (a UTF-8 error from a malformed value):
+    * the real skip/split-off ACCEPTS bytes the model's skip rejects (so, by C07_skip_exact, the
+      non-validating decoder rejects them too: not a UTF-8 matter) and the real decoder rejects them;
+    * the real skip REJECTS bytes that the real decoder accepts."""
+    if not diffs:
+        return
+    try:
+        cases = open(f"{d}/cases.txt", encoding="utf-8", errors="replace").read().split("\n")
+        impl = open(f"{d}/impl.txt", encoding="utf-8", errors="replace").read().split("\n")
+    except OSError:
+        return
+    for x in diffs[:50]:
+        op, _, b = x["case"].partition(" ")
+        if op not in ("skip", "split") or x["line"] < 0:
+            continue
+        # the ops of one input are written next to each other: find this input's `dec` answer
+        dec = None
+        for j in range(max(0, x["line"] - 4), min(len(cases), x["line"] + 5)):
+            if cases[j] == "dec " + b:
+                dec = impl[j]
+        if dec is None:
+            continue
+        impl_ok = not x["impl"].startswith("!")
+        model_ok = not x["model"].startswith("!")
+        dec_ok = not dec.startswith("!")
+        if impl_ok and not model_ok and not dec_ok:
+            o.violation("skip_accepts_what_decoding_rejects: %s succeeds on bytes that deserialize_as_value rejects and that "
+                        "are malformed beyond UTF-8 (the model's walker, equivalent to the non-validating decoder by "
+                        "C07_skip_exact, rejects them)" % op,
+                        {"input": {"bytes": b[:40000]}, "impl_output": "%s=%s dec=%s model_%s=%s" % (op, x["impl"][:200], dec[:200], op, x["model"][:200])})
+        elif (not impl_ok) and dec_ok:
+            o.violation("decode_succeeds_but_%s_fails" % op,
+                        {"input": {"bytes": b[:40000]}, "impl_output": "%s=%s dec=%s" % (op, x["impl"][:200], dec[:200])})
 
 
 def run(tier, seed):
